@@ -351,17 +351,62 @@ class Engine(ExprMixin, CallMixin, ContractMixin, BuiltinMixin, StmtMixin, LoopM
             self.history_obligations(entry, st, entry.store, fnode)
 
     # ------------------------------------------------------------------
+    def spec_heap_reads(self, sf, arg_ts, st):
+        """The heap fields the body of a recursive spec function reads: found once, by a dry evaluation of the body on symbolic
+        arguments (nested calls of recursive spec functions contribute theirs)."""
+        cache = self.__dict__.setdefault("_spec_reads", {})
+        if sf.name in cache:
+            return cache[sf.name]
+        cache[sf.name] = []  # (recursion: the function's own calls inside the dry run add nothing new)
+        if sf.abstract:
+            return cache[sf.name]
+        from .calls import _spec_body_expr
+
+        body = [s for s in sf.node.body if not _is_doc(s)]
+        expr = _spec_body_expr(body)
+        s2 = st.copy()
+        s2.store = {p: sym.fresh(t, "dry") for p, t in zip(sf.params, arg_ts)}
+        for v in s2.store.values():
+            self.assume_wellformed(s2, v)
+        s2.spec = True
+        s2.guards = []
+        s2.ghost = dict(st.ghost)
+        s2.ghost["load_log"] = {}
+        s2.ghost["unfold_depth"] = 10 ** 6  # no unfolding inside the dry run
+        s2.pc = list(st.pc)
+        try:
+            self.evs(expr, s2)
+        except EngineError:
+            raise
+        reads = dict(s2.ghost["load_log"])
+        # what the recursive spec functions called from the body read (their caches are filled by the dry run)
+        for n in ast.walk(sf.node):
+            if isinstance(n, ast.Call) and isinstance(n.func, ast.Name) and n.func.id in cache and n.func.id != sf.name:
+                reads.update(dict(cache[n.func.id]))
+        cache[sf.name] = sorted(reads.items(), key=lambda kv: kv[0])
+        return cache[sf.name]
+
     def call_recursive_spec(self, sf, args, st):
         """Recursive spec function: uninterpreted symbol + one-step unfolding at this argument."""
         mod = st.frame.module
         arg_ts = [self.parse_type_str(t, mod) for t in sf.sig[0]]
         ret_t = self.parse_type_str(sf.sig[1], mod)
-        f = z3.Function(f"spec.{sf.name}", *[sym.sort_of(t) for t in arg_ts], sym.sort_of(ret_t))
+        # A spec function whose body reads the heap (L[i].backrefs ...) is a function of those field arrays too: the arrays of the
+        # state it is evaluated in are extra arguments of the symbol, so two evaluations in different heaps are different terms.
+        harrs = []
+        for hk, ht in self.spec_heap_reads(sf, arg_ts, st):
+            if isinstance(ht, TDict):
+                from .state import _dict_parts
+
+                harrs.extend(st._arr(f"{hk}#{p}", ps) for p, ps in _dict_parts(ht).items())
+            else:
+                harrs.append(st.field_array(hk, ht))
+        f = z3.Function(f"spec.{sf.name}", *[sym.sort_of(t) for t in arg_ts], *[a.sort() for a in harrs], sym.sort_of(ret_t))
         # (spec mode is total: an Optional actual is read through its value; callers guard the None case)
         args = [sym.opt_val(a) if isinstance(a.t, TOpt) and not isinstance(t, TOpt) else a for a, t in zip(args, arg_ts)]
         cargs = [sym.coerce(self.reify(a), t) for a, t in zip(args, arg_ts)]
-        app = f(*[a.z for a in cargs])
-        key = ("unfold", sf.name, tuple(str(sym.lsimp(a.z)) for a in cargs))
+        app = f(*[a.z for a in cargs], *harrs)
+        key = ("unfold", sf.name, tuple(str(sym.lsimp(a.z)) for a in cargs), tuple(a.get_id() for a in harrs))
         depth = st.ghost.get("unfold_depth", 0)
         opaque = self.root_spec is not None and sf.name in getattr(self.root_spec, "opaque", ())
         if not sf.abstract and not opaque and key not in st.ghost.get("unfolded", ()) and depth < sf.fuel:
